@@ -100,7 +100,12 @@ def warn_sig(t):
 def check(case, rec, T=None, P=None):
     sh = shadow()
     sh.reset()
-    t = TR.run(T or case.t, case.d, strict=False, cc=case.cc, enc=case.enc)
+    rooted = rec.evaluations % 5 == 3
+    t = TR.run(T or case.t, case.d, strict=False, cc=case.cc, enc=case.enc, rooted=rooted)
+    if rooted:
+        rec.count("rooted_decodes")
+        if t.root_escapes:
+            rec.violation("root-path", "path-outside-root", f"{case.short()}\ndecoded with root_path='.log.msg': {TR.pstr(t.root_escapes[0])} does not lie under that root", case.replay())
     til = tiling.Tiling(case.d)
     for ev in t.events:
         til.on_event(ev)
